@@ -995,6 +995,7 @@ func ToEntry(n Node) (e *Entry) {
 			if a := fv.Interface().([]*Deviate); a != nil {
 				for _, d := range a {
 					de := ToEntry(d)
+					e.importErrors(de)
 
 					dt, ok := toDeviation[d.Statement().Argument]
 					if !ok {
